@@ -26,6 +26,11 @@
 (* has non-zero seconds (as-coded model of stardate.julianDateToDatetime), *)
 (* which TLC shows to break SiteFixed (spec mutant for non-vacuity).       *)
 (*                                                                         *)
+(* A site may also JOIN LATE (Scenario.addSensor after `join` steps): Wait  *)
+(* advances the clock before Build; siteLon is the Earth-fixed longitude   *)
+(* the dynamics captured at Build (= lon as designed; the named deviation  *)
+(* CaptureAtJoinEpoch shifts it by the elapsed time, refuted by SiteFixed). *)
+(*                                                                         *)
 (* Properties: SiteEpochAgrees, StartInversionExact, SiteFixed,            *)
 (* VelIsRotation.                                                          *)
 (***************************************************************************)
@@ -36,13 +41,16 @@ CONSTANTS N,                          \* ticks per revolution
           StartSecs, Dts, MaxSteps,
           Plans,                      \* step plans: sequences of step sizes (s); <<>> = "MaxSteps
                                       \* steps of the configured physics step dt"
-          InvertStartBySecTruncation  \* FALSE = as designed
+          MaxJoinSteps,               \* the site may join after 0..MaxJoinSteps scenario steps
+          InvertStartBySecTruncation, \* FALSE = as designed
+          CaptureAtJoinEpoch          \* FALSE = as designed
 
-VARIABLES pc, lon, theta0, startSec, dt, plan, invErr, clockSec, k, siteEpoch, inertial, vel
-vars == <<pc, lon, theta0, startSec, dt, plan, invErr, clockSec, k, siteEpoch, inertial, vel>>
+VARIABLES pc, lon, theta0, startSec, dt, plan, invErr, clockSec, k, siteEpoch, inertial, vel, join, siteLon
+vars == <<pc, lon, theta0, startSec, dt, plan, invErr, clockSec, k, siteEpoch, inertial, vel, join, siteLon>>
 
 Theta(t)      == (theta0 + t) % N                \* Earth angle at scenario second t
-Inertial(e)   == (lon + theta0 + e) % N          \* ecef2eci(x_ecef, start + e), position angle
+\* ecef2eci(x_ecef, start + e), position angle; x_ecef is what the dynamics captured (siteLon)
+Inertial(e)   == (siteLon + theta0 + e) % N
 Quarter       == N \div 4
 \* what the agent reports as its Earth-fixed longitude: eci2ecef(eci, clock epoch)
 ReportedLon   == (inertial - Theta(clockSec)) % N
@@ -51,20 +59,36 @@ InvErrs == IF InvertStartBySecTruncation /\ startSec # 0 THEN {0, -1} ELSE {0}
 
 Init == /\ pc = "start" /\ lon = 0 /\ theta0 = 0 /\ startSec = 0 /\ dt = 0 /\ plan = <<>> /\ invErr = 0
         /\ clockSec = 0 /\ k = 0 /\ siteEpoch = 0 /\ inertial = 0 /\ vel = Quarter
+        /\ join = 0 /\ siteLon = 0
 
 PoseSite  == /\ pc = "start" /\ \E g \in Lons, t \in Theta0s : lon' = g /\ theta0' = t
              /\ pc' = "site"
-             /\ UNCHANGED <<startSec, dt, plan, invErr, clockSec, k, siteEpoch, inertial, vel>>
+             /\ UNCHANGED <<startSec, dt, plan, invErr, clockSec, k, siteEpoch, inertial, vel, join, siteLon>>
 PoseStart == /\ pc = "site"
              /\ \E s \in StartSecs, st \in Dts, p \in Plans : startSec' = s /\ dt' = st /\ plan' = p
              /\ pc' = "posed"
-             /\ UNCHANGED <<lon, theta0, invErr, clockSec, k, siteEpoch, inertial, vel>>
-\* ScenarioBuilder: the dynamics recovers the start datetime from the start Julian date; the
-\* initial inertial state comes from the configuration at the authoritative start
+             /\ UNCHANGED <<lon, theta0, invErr, clockSec, k, siteEpoch, inertial, vel, join, siteLon>>
+\* the scenario steps before the site exists (a sensor added mid-run: Scenario.addSensor or a
+\* sensor-addition event): only the clock advances
+Wait == /\ pc = "posed" /\ join < MaxJoinSteps /\ dt > 0
+        /\ clockSec' = clockSec + dt /\ join' = join + 1
+        /\ UNCHANGED <<pc, lon, theta0, startSec, dt, plan, invErr, k, siteEpoch, inertial, vel, siteLon>>
+\* ScenarioBuilder / Scenario.addSensor at scenario second clockSec (0 unless the site joins late):
+\*  - dynamicsFactory: the dynamics recovers the start datetime from the start Julian date and
+\*    captures the site's Earth-fixed position, as DESIGNED from the configuration at the start
+\*    epoch converted with the start epoch (siteLon = lon).  The named deviation
+\*    CaptureAtJoinEpoch = TRUE evaluates the configuration at the CURRENT epoch but converts with
+\*    the START epoch, which pins the site clockSec ticks further east (spec mutant: TLC must
+\*    refute SiteFixed for a site that joins late);
+\*  - SensingAgent.fromConfig: the initial inertial state is the configuration evaluated at the
+\*    clock's current epoch
 Build == /\ pc = "posed" /\ \E e \in InvErrs : invErr' = e
-         /\ siteEpoch' = 0 /\ inertial' = Inertial(0) /\ vel' = (Inertial(0) + Quarter) % N
+         /\ siteLon' = IF CaptureAtJoinEpoch THEN (lon + clockSec) % N ELSE lon
+         /\ siteEpoch' = clockSec
+         /\ inertial' = (lon + theta0 + clockSec) % N
+         /\ vel' = (lon + theta0 + clockSec + Quarter) % N
          /\ pc' = "run"
-         /\ UNCHANGED <<lon, theta0, startSec, dt, plan, clockSec, k>>
+         /\ UNCHANGED <<lon, theta0, startSec, dt, plan, clockSec, k, join>>
 \* one propagation of d seconds: the clock advances; Terrestrial.propagate evaluates the
 \* Earth-fixed position at its own idea of "start + final_time"
 Advance(d) == /\ d > 0
@@ -72,14 +96,14 @@ Advance(d) == /\ d > 0
               /\ siteEpoch' = invErr + clockSec + d
               /\ inertial' = Inertial(invErr + clockSec + d)
               /\ vel' = (Inertial(invErr + clockSec + d) + Quarter) % N
-              /\ UNCHANGED <<pc, lon, theta0, startSec, dt, plan, invErr>>
+              /\ UNCHANGED <<pc, lon, theta0, startSec, dt, plan, invErr, join, siteLon>>
 \* a scenario: every step is the configured physics step
 Step     == pc = "run" /\ plan = <<>> /\ k < MaxSteps /\ Advance(dt)
 \* the agent stepped directly with a plan of step sizes: a long first step (an elapsed time of
 \* hours to days), small steps late in a run, steps of whole days, mixtures
 PlanStep == pc = "run" /\ plan # <<>> /\ k < Len(plan) /\ Advance(plan[k + 1])
 
-Next == PoseSite \/ PoseStart \/ Build \/ Step \/ PlanStep
+Next == PoseSite \/ PoseStart \/ Wait \/ Build \/ Step \/ PlanStep
 Spec == Init /\ [][Next]_vars
 
 \* C11: the epoch of the site's inertial state is the clock
@@ -93,7 +117,7 @@ VelIsRotation       == pc = "run" => ReportedVelLon = (lon + Quarter) % N
 \* configurations handed to the driver (which crosses them with real dates and sites)
 Emit == (pc = "run" /\ ((plan = <<>> /\ k = MaxSteps) \/ (plan # <<>> /\ k = Len(plan)))) =>
    PrintT("SITE " \o ToJson([startSec |-> startSec, dt |-> dt, steps |-> k, lon |-> lon, theta0 |-> theta0,
-                             plan |-> plan, elapsed |-> clockSec]))
+                             plan |-> plan, elapsed |-> clockSec, join |-> join]))
 
 Secs60      == 0..59
 DtsQuick    == {2, 7, 30, 60, 120, 300, 600, 900}
